@@ -166,6 +166,9 @@ func ParseCoff(b []byte) *CoffFile {
 			if off < 4 || off >= len(f.StrTab) {
 				bad("symbol %d: long-name offset %d is outside the string table (%d bytes)", i, off, len(f.StrTab))
 			} else {
+				if off > 4 && f.StrTab[off-1] != 0 {
+					bad("symbol %d: long-name offset %d points into the middle of a string of the string table", i, off)
+				}
 				end := bytes.IndexByte(f.StrTab[off:], 0)
 				if end < 0 {
 					bad("symbol %d: long name at offset %d is not NUL-terminated inside the string table", i, off)
